@@ -29,6 +29,7 @@ type SpecEval struct {
 	phis     map[*ssa.Phi]Val
 	header   *ssa.BasicBlock
 	inOld    bool
+	prevSt   *State // state at the start of the current loop iteration (step clauses)
 }
 
 func (c *Ctx) newSpecEval(fr *Frame, st, old *State) *SpecEval {
@@ -279,17 +280,22 @@ func (ev *SpecEval) quant(x *SQuant) (TV, error) {
 	body, err := sub.eval(x.Body)
 	var trig string
 	var terr error
-	if err == nil && len(x.Trig) > 0 {
-		var ts []string
-		for _, t := range x.Trig {
-			tv, e2 := sub.eval(t)
-			if e2 != nil {
-				terr = e2
+	if err == nil {
+		for _, grp := range x.Trigs {
+			var ts []string
+			for _, t := range grp {
+				tv, e2 := sub.eval(t)
+				if e2 != nil {
+					terr = e2
+					break
+				}
+				ts = append(ts, tv.T)
+			}
+			if terr != nil {
 				break
 			}
-			ts = append(ts, tv.T)
+			trig += " :pattern (" + strings.Join(ts, " ") + ")"
 		}
-		trig = " :pattern (" + strings.Join(ts, " ") + ")"
 	}
 	bad := ev.c.specErr
 	ev.c.specErr = savedErr
@@ -347,6 +353,8 @@ func (ev *SpecEval) ident(name string) (TV, error) {
 		return v, nil
 	}
 	switch name {
+	case "ncalls":
+		return TV{T: ev.st.trN, Typ: tInt}, nil
 	case "MAXLEN":
 		return TV{T: "MAXLEN", Typ: tInt}, nil
 	case "MAXINT64":
@@ -625,6 +633,47 @@ func (ev *SpecEval) call(x *SCall) (TV, error) {
 	if !ok {
 		return TV{}, fmt.Errorf("unsupported call %s", x)
 	}
+	if id.Name == "prev" && len(x.Args) == 1 {
+		if ev.prevSt == nil {
+			return TV{}, fmt.Errorf("prev() is only meaningful in a loop step clause")
+		}
+		sub := *ev
+		sub.st = ev.prevSt
+		sub.phis = nil
+		return sub.eval(x.Args[0])
+	}
+	if id.Name == "called" && len(x.Args) == 2 {
+		i, err := ev.eval(x.Args[0])
+		if err != nil {
+			return TV{}, err
+		}
+		var fid string
+		switch f := x.Args[1].(type) {
+		case *SStr:
+			if fn := c.w.Funcs[f.V]; fn != nil {
+				fid = smtInt(int64(c.w.fnID(fn)))
+			} else {
+				fid = smtInt(int64(dynID(f.V)))
+			}
+		case *SSel:
+			if pk, ok := f.X.(*SIdent); ok {
+				if fn := c.w.Funcs[pk.Name+"."+f.Sel]; fn != nil {
+					fid = smtInt(int64(c.w.fnID(fn)))
+				}
+			}
+		case *SIdent:
+			if fn := c.w.Funcs[ev.pkg+"."+f.Name]; fn != nil {
+				fid = smtInt(int64(c.w.fnID(fn)))
+			} else {
+				fid = smtInt(int64(dynID(f.Name)))
+			}
+		}
+		if fid == "" {
+			return TV{}, fmt.Errorf("called: unknown function %s", x.Args[1])
+		}
+		a := c.arr(ev.st, "TR_fn", "Int")
+		return TV{T: fmt.Sprintf("(and (<= 0 %s) (< %s %s) (= (select %s %s) %s))", i.T, i.T, ev.st.trN, a, i.T, fid), Typ: tBool}, nil
+	}
 	var args []TV
 	for _, a := range x.Args {
 		v, err := ev.eval(a)
@@ -715,8 +764,36 @@ func (ev *SpecEval) call(x *SCall) (TV, error) {
 		return TV{T: "(i2f " + args[0].T + ")", Typ: types.Typ[types.Float64]}, nil
 	case "fdiv", "fadd", "fsub", "fmul":
 		return TV{T: "(f_" + id.Name[1:] + " " + args[0].T + " " + args[1].T + ")", Typ: types.Typ[types.Float64]}, nil
+	case "sliceArg", "sliceRes":
+		pre := map[string]string{"sliceArg": "TR_sa", "sliceRes": "TR_sr"}[id.Name]
+		aa := c.arr(ev.st, pre+"_arr", "Int")
+		ao := c.arr(ev.st, pre+"_off", "Int")
+		al := c.arr(ev.st, pre+"_len", "Int")
+		ac := c.arr(ev.st, pre+"_cap", "Int")
+		i := args[0].T
+		return TV{T: fmt.Sprintf("(mk_slice (select %s %s) (select %s %s) (select %s %s) (select %s %s))", aa, i, ao, i, al, i, ac, i), Sort: "Slice"}, nil
+	case "nvarargs":
+		a := c.arr(ev.st, "TR_len", "Int")
+		return TV{T: fmt.Sprintf("(select %s %s)", a, args[0].T), Typ: tInt}, nil
+	case "arg1", "arg2", "arg3", "arg4", "arg5", "result":
+		arr := map[string]string{"arg1": "TR_a1", "arg2": "TR_a2", "arg3": "TR_a3", "arg4": "TR_a4", "arg5": "TR_a5", "result": "TR_res"}[id.Name]
+		a := c.arr(ev.st, arr, "Int")
+		t, _ := c.w.LookupType("object.PanObject", "object")
+		return TV{T: fmt.Sprintf("(select %s %s)", a, args[0].T), Typ: t}, nil
+	case "result2":
+		a := c.arr(ev.st, "TR_res2", "Int")
+		t, _ := c.w.LookupType("object.PanObject", "object")
+		return TV{T: fmt.Sprintf("(select %s %s)", a, args[0].T), Typ: t}, nil
+	case "resultok":
+		a := c.arr(ev.st, "TR_res2", "Int")
+		return TV{T: fmt.Sprintf("(= (select %s %s) 1)", a, args[0].T), Typ: tBool}, nil
+	case "resultb":
+		a := c.arr(ev.st, "TR_res", "Int")
+		return TV{T: fmt.Sprintf("(= (select %s %s) 1)", a, args[0].T), Typ: tBool}, nil
 	case "rune2str":
 		return TV{T: "(rune2str " + args[0].T + ")", Typ: tStr}, nil
+	case "iterStore":
+		return TV{T: "(iterStore " + args[0].T + ")", Typ: tBool}, nil
 	case "symhash":
 		return TV{T: "(symhash " + args[0].T + ")", Typ: tInt}, nil
 	case "strlen":
@@ -1014,7 +1091,19 @@ func (c *Ctx) emitAxioms(st *State) {
 			c.lines = append(c.lines, fmt.Sprintf("(assert (forall (%s) (! (= %s %s) :pattern (%s))))", strings.Join(decls, " "), app, body.T, app))
 		}
 	}
+	uses := map[string]bool{}
+	if c.contract != nil {
+		for _, u := range c.contract.Uses {
+			uses[u] = true
+		}
+	}
+	for _, u := range c.extraUses {
+		uses[u] = true
+	}
 	for _, ax := range c.sp.Axioms {
+		if !ax.Global && !uses[ax.Name] {
+			continue
+		}
 		ev := c.newSpecEval(nil, st, st)
 		ev.pkg = ax.Pkg
 		tv, err := ev.eval(ax.Expr)
